@@ -124,6 +124,7 @@ func runC18(c *core.Ctx) {
 		return
 	}
 	checkOperatorDerivation(c)
+	checkPoolOwnerIsApplicant(c)
 	writers := storageWriters(c)
 	hs := Handlers(c)
 	c.Floor("registered native handlers", len(hs), 39)
